@@ -729,22 +729,23 @@ def gen_fragment_structured(rng, n):
 
 def model_recognises(strings):
     """extracted recogniser of the grammar fragment:
-    [(in_fragment without u, in_fragment with u, recognises without u, recognises with u)]"""
+    [(in_fragment without u, in_fragment with u, recognises without u, recognises with u, in_grammar without u, in_grammar with u)]"""
     out = run_model("regex", "frag", [enc_str(s) for s in strings])
-    return [tuple(int(x) != 0 for x in ln.split()[:4]) for ln in out]
+    return [tuple(int(x) != 0 for x in ln.split()[:6]) for ln in out]
 
 
 def compare_grammar_v8(strs):
     """Grammar.v (through its recogniser, proved sound and complete for `Pattern u`) vs V8 on the given strings, each in
-    the modes in which it satisfies in_fragment.  Strings on which V8 is known to deviate from the specification
-    (quantifier bounds clamped to 2^31-1 before the comparison) are not compared.
+    the modes in which it satisfies in_grammar (the inputs on which Grammar.v is the whole ES2022 grammar; in_fragment,
+    the side condition of the agreement theorem with the validator model, is a subset).  Strings on which V8 is known to
+    deviate from the specification (quantifier bounds clamped to 2^31-1 before the comparison) are not compared.
     Returns (n_compared, n_accepted, mismatches, stats)."""
     strs = sorted(set(strs))
     nexc = sum(1 for s in strs if _v8_clamped_bounds(s))
     strs = [s for s in strs if not _v8_clamped_bounds(s)]
     rec = model_recognises(strs)
-    cn = [(s, r[2]) for s, r in zip(strs, rec) if r[0]]
-    cu = [(s, r[3]) for s, r in zip(strs, rec) if r[1]]
+    cn = [(s, r[2]) for s, r in zip(strs, rec) if r[4]]
+    cu = [(s, r[3]) for s, r in zip(strs, rec) if r[5]]
     v8n = v8_verdicts([(s, "") for s, _ in cn])
     v8u = v8_verdicts([(s, "u") for s, _ in cu])
     mism = []
@@ -752,10 +753,15 @@ def compare_grammar_v8(strs):
         for (s, ok), t in zip(cases, res):
             if t is None or ok != (not t):
                 mism.append({"kind": "grammar", "pattern": s, "flags": mode, "recognises": ok, "v8_throws": t})
+    for s, r in zip(strs, rec):       # in_fragment implies in_grammar (proved: in_fragment_in_grammar)
+        if (r[0] and not r[4]) or (r[1] and not r[5]):
+            mism.append({"kind": "grammar", "pattern": s, "flags": "", "in_fragment_outside_in_grammar": True})
     nb = sum(1 for s, _ in cn if "{" in s) + sum(1 for s, _ in cu if "{" in s)
-    stats = {"strings": len(strs), "in_fragment_n": len(cn), "in_fragment_u": len(cu), "accepted_n": sum(1 for _, ok in cn if ok),
-             "accepted_u": sum(1 for _, ok in cu if ok), "with_brace": nb, "v8_clamp_excluded": nexc,
-             "mode_dependent": sum(1 for s, r in zip(strs, rec) if r[0] and r[1] and r[2] != r[3])}
+    stats = {"strings": len(strs), "in_grammar_n": len(cn), "in_grammar_u": len(cu),
+             "in_fragment_n": sum(1 for r in rec if r[0]), "in_fragment_u": sum(1 for r in rec if r[1]),
+             "accepted_n": sum(1 for _, ok in cn if ok), "accepted_u": sum(1 for _, ok in cu if ok), "with_brace": nb,
+             "with_class": sum(1 for s, _ in cn if "[" in s) + sum(1 for s, _ in cu if "[" in s), "v8_clamp_excluded": nexc,
+             "mode_dependent": sum(1 for s, r in zip(strs, rec) if r[4] and r[5] and r[2] != r[3])}
     return len(cn) + len(cu), stats["accepted_n"] + stats["accepted_u"], mism, stats
 
 
@@ -775,6 +781,27 @@ def gen_backref_structured(rng, n):
     return ["".join(rng.choice(BACKREF_PIECES) for _ in range(rng.randint(1, 7))) for _ in range(n)]
 
 
+# character classes
+CLASS_ALPHABET = list("a[]^-\\dbc1z(")
+CLASS_ATOMS = ["a", "z", "0", "9", "-", "^", "é", "\U0001F600", "\U0001F601", "\\d", "\\w", "\\S", "\\b", "\\B", "\\-", "\\]", "\\c1", "\\c_",
+               "\\cA", "\\c", "\\x41", "\\x4", "\\u0041", "\\u{41}", "\\u{1F600}", "\\uD83D\\uDE00", "\\uD83D", "\\uDE00", "\\0", "\\1",
+               "\\12", "\\8", "\\00", "\\377", "\\400", "\\k", "[", "(", ")", "{", "\\a", "\\e", "\\q", "\\/", ".", "*", "$", "\\n", "\\r",
+               "\\t", "\\f", "\\v", "\\u", "\\_", "\\\\"]
+
+
+def _frag_class(rng):
+    items = []
+    for _ in range(rng.randint(0, 4)):
+        items.append(rng.choice(CLASS_ATOMS) if rng.random() < 0.5 else rng.choice(CLASS_ATOMS) + "-" + rng.choice(CLASS_ATOMS))
+    s = "[" + rng.choice(["", "", "^"]) + "".join(items)
+    return s + "]" if rng.random() < 0.92 else s
+
+
+def gen_class_structured(rng, n):
+    pieces = ["a", "(b)", "\\1", "*", "{2}", "|", ")", "(", "]", "-", "\\2"]
+    return ["".join(_frag_class(rng) if rng.random() < 0.6 else rng.choice(pieces) for _ in range(rng.randint(1, 3))) for _ in range(n)]
+
+
 def grammar_strings(tier, rng):
     thorough = tier == "thorough"
     strs = list(gen_exhaustive(4, FRAGMENT_ALPHABET))
@@ -789,6 +816,9 @@ def grammar_strings(tier, rng):
     strs += list(gen_exhaustive(5 if thorough else 4, BACKREF_ALPHABET))
     strs += gen_sampled(rng, 300000 if thorough else 40000, 9, BACKREF_ALPHABET)
     strs += gen_backref_structured(rng, 300000 if thorough else 50000)
+    strs += list(gen_exhaustive(5 if thorough else 4, CLASS_ALPHABET))
+    strs += gen_sampled(rng, 300000 if thorough else 40000, 9, CLASS_ALPHABET)
+    strs += gen_class_structured(rng, 400000 if thorough else 80000)
     if thorough:
         strs += list(gen_exhaustive(5, list("a.|()?*+:^$=!<\\dbw/]")))
     return strs
